@@ -74,4 +74,103 @@ mutual
     | .fv e :: ps => some (.prim .str) :: (tmap key Γ F e ++ tmapParts key Γ F ps)
 end
 
+/-! ## Side conditions of the soundness theorem
+
+`vtypes`: the types of the nodes in *value* position — `tmap` without the callee entries (the
+`Member` of a method call, the `Name` of a function call) and without the pseudo-entries of
+generators and formatted values.  `noFnValuesB`: none of them is a function or a method, i.e. no
+function / bound method is used as a first-class value (`len == len`, `self.it.label in xs`):
+the evaluator `Eval.lean` has no such values (it would answer `NameError`), CPython has.
+`Expr.wf`: `and` / `or` have operands (`ast.BoolOp` has at least two). -/
+
+mutual
+  def vtypes (key : Expr → κ) (Γ : TEnv) (F : Facts κ) : Expr → List (Option Ty)
+    | .member i n => resTy (infer key Γ F (.member i n)) :: vtypes key Γ F i
+    | .index c i => resTy (infer key Γ F (.index c i)) :: (vtypes key Γ F c ++ vtypes key Γ F i)
+    | .cmp l op r => resTy (infer key Γ F (.cmp l op r)) :: (vtypes key Γ F l ++ vtypes key Γ F r)
+    | .isIn m c => resTy (infer key Γ F (.isIn m c)) :: (vtypes key Γ F m ++ vtypes key Γ F c)
+    | .impl a c =>
+      resTy (infer key Γ F (.impl a c)) :: (vtypes key Γ F a ++ vtypes key Γ (implFacts key F a) c)
+    | .methodCall i n args =>
+      resTy (infer key Γ F (.methodCall i n args)) :: (vtypes key Γ F i ++ vtypesList key Γ F args)
+    | .name x => [resTy (infer key Γ F (.name x))]
+    | .funCall n args => resTy (infer key Γ F (.funCall n args)) :: vtypesList key Γ F args
+    | .const c => [resTy (infer key Γ F (.const c))]
+    | .isNone e => resTy (infer key Γ F (.isNone e)) :: vtypes key Γ F e
+    | .isNotNone e => resTy (infer key Γ F (.isNotNone e)) :: vtypes key Γ F e
+    | .not e => resTy (infer key Γ F (.not e)) :: vtypes key Γ F e
+    | .and es => resTy (infer key Γ F (.and es)) :: vtypesAnd key Γ F es
+    | .or es => resTy (infer key Γ F (.or es)) :: vtypesOr key Γ F es
+    | .add l r => resTy (infer key Γ F (.add l r)) :: (vtypes key Γ F l ++ vtypes key Γ F r)
+    | .sub l r => resTy (infer key Γ F (.sub l r)) :: (vtypes key Γ F l ++ vtypes key Γ F r)
+    | .joinedStr ps => resTy (infer key Γ F (.joinedStr ps)) :: vtypesParts key Γ F ps
+    | .any g c =>
+      resTy (infer key Γ F (.any g c)) :: (vtypesGen key Γ F g ++
+        match inferGen key Γ F g with
+        | .ok (x, τx) => vtypes key (Γ.bind x τx) F c
+        | _ => [])
+    | .all g c =>
+      resTy (infer key Γ F (.all g c)) :: (vtypesGen key Γ F g ++
+        match inferGen key Γ F g with
+        | .ok (x, τx) => vtypes key (Γ.bind x τx) F c
+        | _ => [])
+  def vtypesGen (key : Expr → κ) (Γ : TEnv) (F : Facts κ) : Gen → List (Option Ty)
+    | .forEach _ it => vtypes key Γ F it
+    | .forRange _ a b => vtypes key Γ F a ++ vtypes key Γ F b
+  def vtypesList (key : Expr → κ) (Γ : TEnv) (F : Facts κ) : List Expr → List (Option Ty)
+    | [] => []
+    | e :: es => vtypes key Γ F e ++ vtypesList key Γ F es
+  def vtypesAnd (key : Expr → κ) (Γ : TEnv) (F : Facts κ) : List Expr → List (Option Ty)
+    | [] => []
+    | e :: es => vtypes key Γ F e ++ vtypesAnd key Γ (andFact key F e) es
+  def vtypesOr (key : Expr → κ) (Γ : TEnv) (F : Facts κ) : List Expr → List (Option Ty)
+    | [] => []
+    | e :: es => vtypes key Γ F e ++ vtypesOr key Γ (orFact key F e) es
+  def vtypesParts (key : Expr → κ) (Γ : TEnv) (F : Facts κ) : List JPart → List (Option Ty)
+    | [] => []
+    | .lit _ :: ps => vtypesParts key Γ F ps
+    | .fv e :: ps => vtypes key Γ F e ++ vtypesParts key Γ F ps
+end
+
+/-- not a function / method type (an unknown type — the inference failed there — passes) -/
+def valTy : Option Ty → Bool
+  | some τ => !τ.isFn
+  | none => true
+
+def noFnValuesB (key : Expr → κ) (Γ : TEnv) (F : Facts κ) (e : Expr) : Bool := (vtypes key Γ F e).all valTy
+
+mutual
+  /-- what the parser produces: `and` / `or` have operands -/
+  def Expr.wf : Expr → Bool
+    | .member i _ => i.wf
+    | .index c i => c.wf && i.wf
+    | .cmp l _ r => l.wf && r.wf
+    | .isIn m c => m.wf && c.wf
+    | .impl a c => a.wf && c.wf
+    | .methodCall i _ args => i.wf && wfList args
+    | .name _ => true
+    | .funCall _ args => wfList args
+    | .const _ => true
+    | .isNone e => e.wf
+    | .isNotNone e => e.wf
+    | .not e => e.wf
+    | .and es => !es.isEmpty && wfList es
+    | .or es => !es.isEmpty && wfList es
+    | .add l r => l.wf && r.wf
+    | .sub l r => l.wf && r.wf
+    | .joinedStr ps => wfParts ps
+    | .any g c => wfGen g && c.wf
+    | .all g c => wfGen g && c.wf
+  def wfList : List Expr → Bool
+    | [] => true
+    | e :: es => e.wf && wfList es
+  def wfParts : List JPart → Bool
+    | [] => true
+    | .lit _ :: ps => wfParts ps
+    | .fv e :: ps => e.wf && wfParts ps
+  def wfGen : Gen → Bool
+    | .forEach _ it => it.wf
+    | .forRange _ a b => a.wf && b.wf
+end
+
 end AasVerif.Expr
